@@ -12,6 +12,11 @@ import (
 )
 
 // genJSON builds a random JSON value; strings come from strAlpha
+// jsonBigNumbers adds whole numbers at and beyond the 64-bit integer range to genJSONValue (C36 only)
+var jsonBigNumbers bool
+
+var jsonBig = []float64{9223372036854775807, 9223372036854775808, -9223372036854775808, -9223372036854775809, 18446744073709551615, 18446744073709551616, 1e19, 1e20, 123456789012345678901234, 4611686018427387904, 9007199254740993}
+
 func genJSONValue(r *rand.Rand, depth int, nodes *int, strGen func(*rand.Rand) string, allowNull bool) any {
 	*nodes--
 	k := r.Intn(12)
@@ -22,6 +27,9 @@ func genJSONValue(r *rand.Rand, depth int, nodes *int, strGen func(*rand.Rand) s
 	case k < 3:
 		return strGen(r)
 	case k < 5:
+		if jsonBigNumbers && r.Intn(8) == 0 {
+			return jsonBig[r.Intn(len(jsonBig))]
+		}
 		switch r.Intn(6) {
 		case 0:
 			return float64(0)
@@ -187,7 +195,7 @@ func init() {
 	register(&Property{
 		ID:    "C36",
 		Level: "exploration",
-		Rule: "random JSON arrays and objects (depth <= 5, <= 40 nodes; strings over letters, digits, spaces, punctuation and non-ASCII but without backslash, $, ~, parentheses and double quote; finite numbers; booleans; null) printed as strict JSON with random whitespace and newlines and used as `v = %[..]` / `v = %{..}` (variable read back through the API) and as an inline argument (function $PARAMS); " +
+		Rule: "random JSON arrays and objects (depth <= 5, <= 40 nodes; strings over letters, digits, spaces, punctuation and non-ASCII but without backslash, $, ~, parentheses and double quote; finite numbers, in a third of the documents also whole numbers at and beyond the 64-bit integer range (2^63 - 1, 2^63, 2^64, 1e19, 1e20, 24 digits ...); booleans; null) printed as strict JSON with random whitespace and newlines and used as `v = %[..]` / `v = %{..}` (variable read back through the API) and as an inline argument (function $PARAMS); " +
 			"oracle: encoding/json decode of murex's value deep-equals the decode of the source text; non-trivial = nesting depth >= 2 or a string with punctuation; distinct by source text",
 		Assumptions: []string{"murex extensions inside the literals (barewords, ranges, variables, comments) are not generated, only strict JSON text", "numbers are compared as float64"},
 		Run: func(x *Ctx) {
@@ -198,6 +206,7 @@ func init() {
 				r := x.Rng("doc", i)
 				nodes := 40
 				var v any
+				jsonBigNumbers = i%3 == 0
 				if r.Intn(2) == 0 {
 					arr := []any{}
 					for k := r.Intn(6); k > 0; k-- {
@@ -211,6 +220,7 @@ func init() {
 					}
 					v = m
 				}
+				jsonBigNumbers = false
 				var b strings.Builder
 				printJSON(r, v, &b)
 				text := b.String()
